@@ -26,6 +26,16 @@ CHECKS = {
         note="Component level drives one leaf at a time (plus owner power state), not all pairs.",
         design_ref="DESIGN.md §4 C02",
     ),
+    "C11": dict(
+        technique="explicit-state BFS + deviation-bounded enumeration over real PrimaiteGymEnv with masking; whole mask vector vs independent request-tree walk; monitor on RequestManager.__call__",
+        text="On GEN members with action masking and node durations 0/1/2 (so SHUTTING_DOWN/BOOTING, restarting services and installing "
+             "applications are reached), after every explored step/reset every entry of the action mask is compared with an independent "
+             "walk of the live request tree that evaluates every validator along the action's path (missing key => 0); for the executed "
+             "action a class-level monitor on RequestManager.__call__ records where the request was turned away: masked-out => never "
+             "reaches a handler / never success, allowed => not refused by a permission rule.",
+        note="Validators are assumed pure (evaluated an extra time by walker and monitor).",
+        design_ref="DESIGN.md §4 C11",
+    ),
     "C15": dict(
         technique="explicit-state BFS over real FileSystem objects (replay-from-history), invariants on every state",
         text="Every sequence of file-system requests / agent-action requests / API calls up to the stated depth over a "
